@@ -158,3 +158,37 @@ Lemma joint_nonvacuous :
   let ws' := srun env_id (Some [0]) (bgp_history ++ [ENode (w_lab [(7, 7)] true)]) in
   s_l2 (snd ws') 0 = None /\ bs_ads (s_bgp (snd ws')) 0 = None /\ sess_of (s_bgp (snd ws')) 1 = Some [].
 Proof. vm_compute. repeat split; try discriminate. Qed.
+
+(* ---- endpoint-slice selection ---- *)
+Lemma slices_for_spec ns name all eps :
+  In eps (slices_for ns name all) <->
+  exists s, In s all /\ ks_ns s = ns /\ ks_label s = Some name /\ ks_eps s = eps.
+Proof.
+  unfold slices_for. rewrite in_map_iff. split.
+  - intros [s [He Hs]]. apply filter_In in Hs. destruct Hs as [Hin Hf]. unfold slice_of in Hf.
+    apply andb_true_iff in Hf. destruct Hf as [H1 H2]. apply N.eqb_eq in H1.
+    destruct (ks_label s) as [l|] eqn:El; [|discriminate]. apply N.eqb_eq in H2. subst l. exists s. auto.
+  - intros [s [Hin [H1 [H2 H3]]]]. exists s. split; [exact H3|]. apply filter_In. split; [exact Hin|].
+    unfold slice_of. rewrite H1, H2, !N.eqb_refl. reflexivity.
+Qed.
+
+(* slices of other namespaces (same service name or not) never matter *)
+Lemma slices_for_other_namespace ns name all extra :
+  (forall s, In s extra -> ks_ns s <> ns) -> slices_for ns name (all ++ extra) = slices_for ns name all.
+Proof.
+  intros H. unfold slices_for. rewrite filter_app, map_app.
+  assert (E : filter (slice_of ns name) extra = []).
+  { induction extra as [|x r IH]; [reflexivity|]. cbn [filter]. unfold slice_of at 1.
+    destruct (N.eqb_spec (ks_ns x) ns) as [Hx|Hx]; [exfalso; apply (H x); [left; reflexivity|exact Hx]|].
+    cbn [andb]. apply IH. intros s Hs. apply H. right. exact Hs. }
+  rewrite E. cbn. apply app_nil_r.
+Qed.
+
+(* grouping by the bare label mixes same-named Services of two namespaces, and changes the BGP decision *)
+Definition ks_good : kslice := {| ks_ns := 0; ks_label := Some 7; ks_eps := [ {| be_ready := Some true; be_serving := None; be_node := Some 0; be_addrs := [1] |} ] |}.
+Definition ks_bad : kslice := {| ks_ns := 1; ks_label := Some 7; ks_eps := [ {| be_ready := Some false; be_serving := Some false; be_node := Some 0; be_addrs := [1] |} ] |}.
+Lemma slices_by_label_refuted :
+  let v eps := {| bv_advs := [[0]]; bv_node := None; bv_ignore := false; bv_local := false; bv_eps := eps |} in
+  bgp_decide 0 (v (slices_for 0 7 [ks_good; ks_bad])) = RAnnounce /\
+  bgp_decide 0 (v (slices_by_label 7 [ks_good; ks_bad])) = RNoEndpoints.
+Proof. vm_compute. split; reflexivity. Qed.
